@@ -44,3 +44,23 @@ Example C10_nonvacuous :
   = [VArr [VInt 1; VInt 2; VInt 3]; VArr [VInt 1; VInt 2]; VArr [VInt 9]; VArr [VInt 1; VInt 2; VInt 9];
      VArr [VArr [VInt 1; VInt 2; VInt 3]; VArr [VInt 1; VInt 2; VInt 9]]; VArr [VInt 1; VInt 2; VInt 9]].
 Proof. split; vm_compute; reflexivity. Qed.
+
+Require Import Calc.FloatText Calc.Compile Calc.VM Calc.StepCode.
+
+(* ---- program constants (VM model) ----
+   Every literal of the program text lives in the data segment.  No instruction
+   writes it: after any number of steps, whatever the outcome (value, runtime
+   error with its reset, exit), the code segment, the data segment and the
+   debug table are what they were; so a literal is the same value every time
+   control passes over it. *)
+Theorem C10_program_constants_never_change : forall fuel v r b,
+  v_ds (fst (run_loop fuel v r b)) = v_ds v /\ v_cs (fst (run_loop fuel v r b)) = v_cs v.
+Proof.
+  intros fuel v r b. pose proof (run_keeps_program fuel v r b) as H. unfold code_of in H. inversion H. split; reflexivity || assumption.
+Qed.
+Print Assumptions C10_program_constants_never_change.
+
+Theorem C10_constant_read_is_stable : forall v r b v' r' addr,
+  step v r b = SNext v' r' -> znth (v_ds v') addr = znth (v_ds v) addr.
+Proof. exact constants_survive_a_step. Qed.
+Print Assumptions C10_constant_read_is_stable.
